@@ -9,6 +9,13 @@ import (
 // named machine and prints what it returns; replay files carry it so that a
 // violation can be reproduced with nothing but the library.
 func GoTest(machine, entry string, chunks [][]byte, multi bool) string {
+	return GoTestEnv(machine, entry, chunks, multi, Config{}, nil, false)
+}
+
+// GoTestEnv is GoTest with the reader's answers of cfg (io.EOF with the last
+// chunk, one empty read) or, for the []byte entry point, with spare stored
+// behind the input in the slice's capacity (exact: no spare capacity).
+func GoTestEnv(machine, entry string, chunks [][]byte, multi bool, cfg Config, spare []byte, exact bool) string {
 	var in []byte
 	var cs []string
 	for _, c := range chunks {
@@ -16,8 +23,9 @@ func GoTest(machine, entry string, chunks [][]byte, multi bool) string {
 		cs = append(cs, fmt.Sprintf("%q", c))
 	}
 	reader := "strings.NewReader(" + fmt.Sprintf("%q", in) + ")"
-	if len(chunks) > 1 {
-		reader = "&chunks{parts: []string{" + strings.Join(cs, ", ") + "}}"
+	env := cfg.EOFWithLast || cfg.ZeroAt > 0
+	if len(chunks) > 1 || env {
+		reader = fmt.Sprintf("&chunks{parts: []string{%s}, eofWithLast: %v, zeroAt: %d}", strings.Join(cs, ", "), cfg.EOFWithLast, cfg.ZeroAt)
 	}
 	call := ""
 	switch machine + "." + entry {
@@ -47,8 +55,13 @@ func GoTest(machine, entry string, chunks [][]byte, multi bool) string {
 		call = fmt.Sprintf("var v any; err := (&sen.Tokenizer{OnlyOne: %v}).Load(%s, &oj.ZeroHandler{})", !multi, reader)
 	}
 	helper := ""
-	if len(chunks) > 1 {
-		helper = "\n// chunks is an io.Reader that returns exactly the given pieces, one per Read.\ntype chunks struct{ parts []string }\n\nfunc (c *chunks) Read(p []byte) (int, error) {\n\tif len(c.parts) == 0 {\n\t\treturn 0, io.EOF\n\t}\n\tn := copy(p, c.parts[0])\n\tc.parts = c.parts[1:]\n\treturn n, nil\n}\n"
+	if len(chunks) > 1 || env {
+		helper = "\n// chunks is an io.Reader that returns exactly the given pieces, one per Read; zeroAt > 0: one (0, nil) read\n// before piece number zeroAt (or before io.EOF); eofWithLast: io.EOF comes with the last piece.\ntype chunks struct {\n\tparts       []string\n\teofWithLast bool\n\tzeroAt      int\n\ti           int\n\tzeroed      bool\n}\n\nfunc (c *chunks) Read(p []byte) (int, error) {\n\tif c.zeroAt > 0 && !c.zeroed && c.i+1 == c.zeroAt {\n\t\tc.zeroed = true\n\t\treturn 0, nil\n\t}\n\tif c.i >= len(c.parts) {\n\t\treturn 0, io.EOF\n\t}\n\tn := copy(p, c.parts[c.i])\n\tc.i++\n\tif c.eofWithLast && c.i == len(c.parts) {\n\t\treturn n, io.EOF\n\t}\n\treturn n, nil\n}\n"
+	}
+	if entry == "whole" && (len(spare) > 0 || exact) {
+		// the input as a slice of a larger array: the bytes behind it are not part of it
+		decl := fmt.Sprintf("full := []byte(%q)\n\tin := full[:%d:%d]\n\t", string(in)+string(spare), len(in), len(in)+len(spare))
+		call = decl + strings.Replace(call, fmt.Sprintf("[]byte(%q)", in), "in", 1)
 	}
 	return "func TestReplay(t *testing.T) {\n\t" + call + "\n\tt.Logf(\"value=%v err=%v\", v, err)\n}\n" + helper
 }
